@@ -64,14 +64,23 @@ func (core *JApiCore) next(lexeme scanner.Lexeme) *jerr.JApiError {
 		return core.processParameter(lexeme)
 
 	case scanner.Annotation:
+		if core.currentDirective == nil {
+			return lexemeWithoutDirective(lexeme)
+		}
 		core.processAnnotation(lexeme)
 		return nil
 
 	case scanner.Schema, scanner.Text, scanner.Json, scanner.Enum:
+		if core.currentDirective == nil {
+			return lexemeWithoutDirective(lexeme)
+		}
 		core.processBody(lexeme)
 		return nil
 
 	case scanner.ContextExplicitOpening:
+		if core.currentDirective == nil {
+			return lexemeWithoutDirective(lexeme)
+		}
 		core.processContextBegin()
 		return nil
 
@@ -98,7 +107,14 @@ func (core *JApiCore) processKeyword(lexeme scanner.Lexeme) *jerr.JApiError {
 	return core.setCurrentDirective(keyword, coords)
 }
 
+func lexemeWithoutDirective(lexeme scanner.Lexeme) *jerr.JApiError {
+	return jerr.NewJApiError("there is no directive for the "+lexeme.Type().String(), lexeme.File(), lexeme.Begin())
+}
+
 func (core *JApiCore) processParameter(lexeme scanner.Lexeme) *jerr.JApiError {
+	if core.currentDirective == nil {
+		return lexemeWithoutDirective(lexeme)
+	}
 	if err := core.currentDirective.AppendParameter(lexeme.Value()); err != nil {
 		return core.japiError(err.Error(), lexeme.Begin())
 	}
